@@ -371,6 +371,20 @@ DefGenOut gen_deflate_stream(const Json &spec)
                                                 break;
                                         }
                         }
+                        if (inject && fault == GF_OVERSUB_LL && rld.chance(1, 2)) {
+                                // second shape: every symbol coded and complete, then one of the DEEPEST code words moved up one level, so
+                                // that the excess is the smallest possible (2^-maxlen) and sits at the longest lengths only
+                                std::vector<uint32_t> f3(286, 1);
+                                choose_lengths(r, f3, l2, 15, 0, true);
+                                int maxl = 0;
+                                for (uint8_t x : l2)
+                                        maxl = std::max<int>(maxl, x);
+                                for (size_t q = l2.size(); q-- > 0;)
+                                        if (l2[q] == maxl && maxl > 1) {
+                                                l2[q]--;
+                                                break;
+                                        }
+                        }
                         if (inject && fault == GF_OVERSUB_D) {
                                 std::vector<uint32_t> f2(30, 0);
                                 for (int s = 0; s < 30; s++)
@@ -388,6 +402,37 @@ DefGenOut gen_deflate_stream(const Json &spec)
                                                         }
                                                 break;
                                         }
+                        }
+                        if (inject && fault == GF_OVERSUB_D && rld.chance(1, 2)) {
+                                // second shape of the same fault: a complete chain 1,2,...,L-1,L,L plus ONE more code word of the deepest
+                                // length L, so that the code is over-subscribed only by its longest words (L = 15 a third of the time)
+                                int used = 0;
+                                for (int q = 0; q < 30; q++)
+                                        used += df[q] != 0;
+                                int L = rld.chance(1, 3) ? 15 : 2 + (int) rld.below(14);
+                                if (used - 1 > L)
+                                        L = used - 1;
+                                if (L <= 15) {
+                                        std::vector<int> syms;
+                                        for (int q = 0; q < 30; q++)
+                                                if (df[q])
+                                                        syms.push_back(q);
+                                        std::vector<int> rest;
+                                        for (int q = 0; q < 30; q++)
+                                                if (!df[q])
+                                                        rest.push_back(q);
+                                        for (size_t q = rest.size(); q > 1; q--)
+                                                std::swap(rest[q - 1], rest[rld.below(q)]);
+                                        for (int q : rest)
+                                                syms.push_back(q);
+                                        for (size_t q = (size_t) std::min<int>(used, L + 1); q > 1; q--) // which used symbol gets which depth: random
+                                                std::swap(syms[q - 1], syms[rld.below(q)]);
+                                        for (auto &x : d2)
+                                                x = 0;
+                                        for (int q = 0; q <= L; q++)
+                                                d2[syms[q]] = (uint8_t) (q < L ? q + 1 : L);
+                                        d2[syms[L + 1]] = (uint8_t) L; // the surplus word
+                                }
                         }
                         if (inject && fault == GF_NO_EOB)
                                 l2[256] = 0;
